@@ -1,32 +1,46 @@
 """C14 — tours and the vehicle registry stay well-formed under any operation sequence (plugin for tools/verif.py).
 
 A case is a history (list of operations) over several slots; `copy`/`slice` push a new slot.  The harness runs it on the real
-Tour/Route/RouteContext or Registry/RegistryContext and dumps the observable state after every step; the Coq model
-(Model/TourReg.v, run_tour / run_reg) is evaluated on the same history.  compare = step-by-step equality of the dumps;
-oracle = the well-formedness clauses of the property evaluated on the implementation's dumps alone."""
+Tour/Route/RouteContext, Registry/RegistryContext or (kind "ho") InsertionContext/Solution and dumps the observable state after
+every step; the Coq model (Model/TourReg.v, run_tour / run_reg / run_ho) is evaluated on the same history.  compare = step-by-step
+equality of the dumps; oracle = the well-formedness clauses of the property evaluated on the implementation's dumps alone."""
 
 ID = 'C14'
 HARNESS = 'c14'
 COQ_IMPORTS = 'From VRP Require Import Base.Tac Model.TourReg.\nOpen Scope nat_scope.'
 MODEL_TARGETS = ['theories/Model/TourReg.vo']
 SIZES = {'quick': 1400, 'thorough': 12000, 'search': 6000}
-RULE = ('cases: histories of 4-45 operations. tour histories (58%): insert_at at every legal position (biased to the first/last '
+RULE = ('cases: histories of 4-45 operations. tour histories (50%): insert_at at every legal position (biased to the first/last '
         'legal index), insert_last, remove of present/absent jobs, remove_activity_at, on open and closed tours with single and '
         'multi jobs (several activities per job), interleaved with Tour/Route/RouteContext deep copies (up to 4 live slots, later '
         'operations hit copies and originals) and tour-state writes; 14% of them end with one out-of-guard operation '
         '(index > len, depot activity, remove_activity_at on a depot/out of range: both sides must panic; index 0 / index = len '
-        'on a closed tour: accepted by the code). registry histories (42%): use/free/get_route/use_route/free_route on fleet and '
+        'on a closed tour: accepted by the code). registry histories (30%): use/free/get_route/use_route/free_route on fleet and '
         'foreign actors, next/next_route with scripted draws (min/max/mid), deep_copy and deep_slice with later operations on '
-        'both, on raw Registry and RegistryContext, 1-7 actors in 1-4 groups. non-trivial = distinct history with >= 3 '
-        'state-changing steps. Job arguments of remove and of the index/index_last/job_activities/contains queries are jobs of the tour, '
+        'both, on raw Registry and RegistryContext, 1-7 actors in 1-4 groups. hand-over histories (20%, kind "ho"): slots are real '
+        'InsertionContexts and Solutions of a real Problem (fleet of 2-6 actors, single jobs, stateless goal, zero matrix, locks that '
+        'select one actor). Start: a Solution with Registry::new and no routes (43%), InsertionContext::new_empty/new without locks, '
+        'or InsertionContext::new with 1-3 locks (lazy, repeated actor, foreign actor, empty job list). Solution slots: routes are '
+        'pushed with and without jobs, the registry is edited directly (use_actor/free_actor), so the solution reaches ANY registry '
+        'state: vehicles of job-less tours marked used (what read_init_solution produces, 70% of the pushed routes), route vehicles '
+        'not marked, route-less vehicles marked, duplicate and foreign route actors; InsertionContext::new_from_solution pushes a '
+        'context slot. Context slots: get_route+push, insert_last/remove on routes (routes become empty), restore, keep_routes, '
+        'next_route, use_route/free_route/get_route alone, deep_copy, Solution::from(ctx.deep_copy()) pushing a solution slot, mostly '
+        'followed by new_from_solution again (round trip). Every dump of a context also reports for which actors get_route (on a '
+        'copy of the registry) hands out a route and what next_route returns. non-trivial = distinct history with >= 3 '
+        'state-changing steps (hand-over histories: at least one completed hand-over). Job arguments of remove and of the index/index_last/job_activities/contains queries are jobs of the tour, '
         'sub-jobs of a multi job wrapped as a standalone Job::Single (NOT a job of the tour: retrieve_job of its activity is the multi) or '
         'absent jobs; fleets contain vehicles with several shifts including IDENTICAL ones (distinct actors that look equal).')
 TRUSTED = ['identity of jobs/actors (Arc pointer equality and hash) is modelled as equality of small numbers; the harness maps pointers to numbers',
            'HashSet/HashMap iteration order is not modelled: jobs()/available() are compared as sorted sets, next() as "one member of every non-empty group"',
-           'deep-copy independence at the level of Rust memory is checked by the harness (mutate one slot, re-dump all others), not proved: in the functional model it holds by construction (frame theorem)']
+           'deep-copy independence at the level of Rust memory is checked by the harness (mutate one slot, re-dump all others), not proved: in the functional model it holds by construction (frame theorem)',
+           'hand-over stream: new_from_solution / Solution::from consume their argument, so the harness passes a copy made of Registry::deep_copy + Route::deep_copy (solutions) or InsertionContext::deep_copy (contexts) and keeps the original slot alive']
 ASSUMPTIONS = ['Multi jobs stay alive while their sub-jobs are in a tour (Multi::roots upgrades a Weak)',
                'Fleet groups partition the actors (guaranteed by Fleet::new, modelled by fleet_groups)',
-               'the depot ends stay in place only for insert_at indices within 1..=total-(1 if closed) (every in-repo caller passes leg index + 1); the code does not check this — see finding']
+               'the depot ends stay in place only for insert_at indices within 1..=total-(1 if closed) (every in-repo caller passes leg index + 1); the code does not check this — see finding',
+               'hand-over: GoalContext::accept_solution_state / accept_route_state leave routes and registry alone (true for the stateless goal of the harness; a feature may do otherwise); '
+               'the "offered iff no route holds it" statement after new_from_solution needs pairwise distinct route actors that belong to the fleet and a solution registry that marks only route actors as used '
+               '(for other inputs the three-case theorem C14_handover_offers says what happens); lock conditions select one actor, locked jobs are Single jobs']
 
 START = [0, 0]
 END = [0, 1]
@@ -203,10 +217,198 @@ def gen_reg(rng, tier):
     return {'kind': 'reg', 'ctx': ctx, 'groups': groups, 'fleet': fleet, 'ops': ops, 'expect': 'ok'}
 
 
+def gen_ho(rng, tier):
+    """hand-over histories over InsertionContext / Solution slots (the generator simulates registry and routes only to steer)"""
+    ng = rng.range(1, 3)
+    fleet = []
+    n = 0
+    target = rng.range(2, 6)
+    while n < target:
+        nd = min(target - n, 1 if rng.chance(2, 3) else 2)
+        fleet.append([rng.below(ng) * 3, [rng.below(2) for _ in range(nd)]])
+        n += nd
+    groups = [g for g, vs in fleet for _ in vs]
+    closed = rng.chance(3, 5)
+    nj = rng.range(3, 5)
+    tag = [1]
+    ops = []
+
+    def new_tag():
+        tag[0] += 1
+        return tag[0]
+
+    def an_actor(prefer=None):
+        if prefer and rng.chance(4, 5):
+            return rng.choice(sorted(prefer))
+        return n + rng.below(3) if rng.chance(1, 25) else rng.below(n)
+
+    # slot: {'kind': 'ctx'|'sol', 'used': set, 'routes': [[actor, [jobs]]]}
+    r = rng.below(100)
+    case = {'kind': 'ho', 'closed': closed, 'groups': groups, 'fleet': fleet, 'nj': nj, 'expect': 'ok'}
+    if r < 50:
+        case['init'] = None
+        slots = [{'kind': 'sol', 'used': set(), 'routes': []}]
+    elif r < 65:
+        case['init'] = []
+        case['empty'] = rng.chance(1, 2)
+        slots = [{'kind': 'ctx', 'used': set(), 'routes': []}]
+    else:
+        locks = []
+        st = {'kind': 'ctx', 'used': set(), 'routes': []}
+        for _ in range(rng.range(1, 3)):
+            a = an_actor()
+            lazy = 1 if rng.chance(1, 5) else 0
+            js = [rng.below(nj) for _ in range(rng.below(3))]
+            locks.append([a, lazy, js])
+            if not lazy and a < n and a not in st['used']:
+                st['used'].add(a)
+                st['routes'].append([a, list(js)])
+        case['init'] = locks
+        slots = [st]
+    dead = [False]
+
+    def fill(k, i, cnt):
+        for _ in range(cnt):
+            j = rng.below(nj)
+            ops.append(['last', k, i, j, new_tag()])
+            slots[k]['routes'][i][1].append(j)
+
+    def release(st, removed):
+        for a, _ in removed:
+            if a < n and a in st['used']:
+                st['used'].discard(a)
+            else:
+                dead[0] = True          # assert!(free_route) fails: the history ends here on both sides
+
+    m = rng.range(6, 30 if tier != 'quick' else 24)
+    while len(ops) < m and not dead[0]:
+        k = rng.below(len(slots))
+        st = slots[k]
+        r = rng.below(100)
+        ras = [a for a, _ in st['routes']]
+        if st['kind'] == 'sol':
+            if r < 34:
+                free_as = set(range(n)) - set(ras)
+                a = an_actor(free_as) if not rng.chance(1, 12) else an_actor(set(ras) or None)
+                ops.append(['add', k, a])
+                st['routes'].append([a, []])
+                i = len(st['routes']) - 1
+                if rng.chance(7, 10):                     # as the initial-solution readers do: every tour marks its vehicle used
+                    ops.append(['use', k, a])
+                    if a < n:
+                        st['used'].add(a)
+                if rng.chance(3, 5):
+                    fill(k, i, rng.range(1, 2))
+            elif r < 44:
+                a = an_actor(st['used'] or None)
+                if rng.chance(1, 2):
+                    ops.append(['use', k, a])
+                    if a < n:
+                        st['used'].add(a)
+                else:
+                    ops.append(['free', k, a])
+                    st['used'].discard(a)
+            elif r < 52 and st['routes']:
+                i = rng.below(len(st['routes']))
+                fill(k, i, 1)
+            elif r < 62 and st['routes']:
+                i = rng.below(len(st['routes']))
+                js = st['routes'][i][1]
+                j = rng.choice(js) if js and rng.chance(4, 5) else rng.below(nj)
+                ops.append(['rm', k, i, j])
+                st['routes'][i][1] = [x for x in js if x != j]
+            elif r < 92 and len(slots) < 6 and (st['routes'] or rng.chance(1, 4)):
+                ops.append(['fromsol', k])
+                used = set(st['used'])
+                kept = []
+                for a, js in st['routes']:
+                    if js:
+                        kept.append([a, list(js)])
+                        if a < n:
+                            used.add(a)
+                    else:
+                        used.discard(a)
+                slots.append({'kind': 'ctx', 'used': used, 'routes': kept})
+            elif r < 96 and len(slots) < 6:
+                ops.append(['copy', k])
+                slots.append({'kind': 'sol', 'used': set(st['used']), 'routes': [[a, list(js)] for a, js in st['routes']]})
+        else:
+            if r < 22:
+                a = an_actor(set(range(n)) - st['used']) if rng.chance(3, 4) else an_actor(st['used'] or None)
+                ops.append(['getpush', k, a])
+                if a < n and a not in st['used']:
+                    st['used'].add(a)
+                    st['routes'].append([a, []])
+                    if rng.chance(3, 5):
+                        fill(k, len(st['routes']) - 1, rng.range(1, 2))
+            elif r < 30 and st['routes']:
+                fill(k, rng.below(len(st['routes'])), 1)
+            elif r < 42 and st['routes']:
+                i = rng.below(len(st['routes']))
+                js = st['routes'][i][1]
+                j = rng.choice(js) if js and rng.chance(5, 6) else rng.below(nj)
+                ops.append(['rm', k, i, j])
+                st['routes'][i][1] = [x for x in js if x != j]
+            elif r < 52:
+                ops.append(['restore', k])
+                release(st, [rt for rt in st['routes'] if not rt[1]])
+                st['routes'] = [rt for rt in st['routes'] if rt[1]]
+            elif r < 59:
+                keep = [a for a in range(n + 1) if rng.chance(3, 5)]
+                ops.append(['keep', k, keep])
+                release(st, [rt for rt in st['routes'] if rt[0] not in keep])
+                st['routes'] = [rt for rt in st['routes'] if rt[0] in keep]
+            elif r < 66:
+                ops.append(['next', k, rng.below(3)])
+            elif r < 72:
+                # registry alone: acquire without a route, release of such an actor, refused calls; rarely a release behind a route's back
+                held = st['used'] - set(ras)
+                q = rng.below(10)
+                if q < 4:
+                    a = an_actor()
+                    ops.append([rng.choice(['use', 'get']), k, a])
+                    if a < n:
+                        st['used'].add(a)
+                elif q < 9 or not ras:
+                    a = an_actor(held or None)
+                    if a in ras and a in st['used']:
+                        a = n                                     # keep this branch disciplined
+                    ops.append(['free', k, a])
+                    st['used'].discard(a)
+                else:
+                    a = rng.choice(ras)
+                    ops.append(['free', k, a])
+                    st['used'].discard(a)
+            elif r < 90 and len(slots) < 6:
+                ops.append(['into', k])
+                slots.append({'kind': 'sol', 'used': set(st['used']), 'routes': [[a, list(js)] for a, js in st['routes']]})
+                if rng.chance(4, 5) and len(slots) < 6:            # round trip
+                    k2 = len(slots) - 1
+                    ops.append(['fromsol', k2])
+                    used = set(st['used'])
+                    kept = []
+                    for a, js in st['routes']:
+                        if js:
+                            kept.append([a, list(js)])
+                            if a < n:
+                                used.add(a)
+                        else:
+                            used.discard(a)
+                    slots.append({'kind': 'ctx', 'used': used, 'routes': kept})
+            elif r < 95 and len(slots) < 6:
+                ops.append(['copy', k])
+                slots.append({'kind': 'ctx', 'used': set(st['used']), 'routes': [[a, list(js)] for a, js in st['routes']]})
+    case['ops'] = ops
+    if dead[0]:
+        case['expect'] = 'panic'
+    return case
+
+
 def generate(rng, tier, n):
     cases = []
     for _ in range(n):
-        cases.append(gen_tour(rng, tier) if rng.below(100) < 58 else gen_reg(rng, tier))
+        r = rng.below(100)
+        cases.append(gen_tour(rng, tier) if r < 50 else gen_reg(rng, tier) if r < 80 else gen_ho(rng, tier))
     return cases
 
 
@@ -246,6 +448,20 @@ def _corpus():
         {'kind': 'reg', 'ctx': False, 'groups': [0, 0, 0, 6], 'expect': 'ok',
          'ops': [['use', 0, 1], ['use', 0, 1], ['next', 0, 1], ['use', 0, 0], ['next', 0, 1], ['slice', 0, [0, 1, 3]],
                  ['free', 1, 2], ['free', 1, 1], ['free', 0, 1], ['next', 1, 0]]},
+        # hand-over: three tours read like an initial solution (every tour marks its vehicle used), the middle one without jobs
+        {'kind': 'ho', 'closed': True, 'groups': [0, 0, 0], 'fleet': [[0, [0]], [0, [0]], [0, [0]]], 'nj': 3, 'init': None, 'expect': 'ok',
+         'ops': [['add', 0, 0], ['use', 0, 0], ['last', 0, 0, 0, 2], ['last', 0, 0, 1, 3], ['add', 0, 1], ['use', 0, 1],
+                 ['add', 0, 2], ['use', 0, 2], ['last', 0, 2, 2, 4], ['fromsol', 0], ['getpush', 1, 1], ['getpush', 1, 1],
+                 ['getpush', 1, 0], ['restore', 1], ['keep', 1, []], ['next', 1, 1]]},
+        # context with locks -> empty a route -> into Solution (the empty route's vehicle still marked used) -> back
+        {'kind': 'ho', 'closed': False, 'groups': [0, 3, 3], 'fleet': [[0, [0]], [3, [1, 1]]], 'nj': 3, 'expect': 'ok',
+         'init': [[1, 0, [0, 1]], [2, 0, []], [1, 0, [2]], [0, 1, [2]]],
+         'ops': [['rm', 0, 0, 0], ['rm', 0, 0, 1], ['into', 0], ['fromsol', 1], ['getpush', 2, 1], ['getpush', 2, 2],
+                 ['last', 2, 0, 2, 5], ['into', 2], ['fromsol', 3], ['copy', 4], ['keep', 5, [0]], ['restore', 0]]},
+        # arbitrary registry states of the solution: route actor not marked used, route-less actor marked used, duplicate route actor
+        {'kind': 'ho', 'closed': True, 'groups': [0, 0, 3, 3], 'fleet': [[0, [0, 0]], [3, [0]], [3, [1]]], 'nj': 3, 'init': None, 'expect': 'ok',
+         'ops': [['add', 0, 0], ['last', 0, 0, 0, 2], ['add', 0, 1], ['use', 0, 3], ['fromsol', 0], ['add', 0, 0], ['use', 0, 0],
+                 ['fromsol', 0], ['getpush', 1, 0], ['getpush', 1, 1], ['getpush', 1, 3], ['free', 0, 3], ['fromsol', 0]]},
     ]
 
 
@@ -258,7 +474,64 @@ def _nl(xs):
     return '[' + '; '.join(str(int(x)) for x in xs) + ']'
 
 
+def _ho_kinds(c):
+    """kind of the slot every operation addresses ('ctx'/'sol'), from the structure of the history"""
+    kinds = ['sol' if c['init'] is None else 'ctx']
+    out = []
+    for o in c['ops']:
+        k = o[1]
+        kind = kinds[k] if k < len(kinds) else None
+        out.append(kind)
+        if o[0] == 'fromsol':
+            kinds.append('ctx')
+        elif o[0] == 'into':
+            kinds.append('sol')
+        elif o[0] == 'copy':
+            kinds.append(kind)
+    return out
+
+
+def _ho_term(c):
+    ts = []
+    for o, kind in zip(c['ops'], _ho_kinds(c)):
+        n, k = o[0], o[1]
+        ctx = kind == 'ctx'
+        if n == 'getpush':
+            ts.append('HCtxOp %d (CGetPush %d)' % (k, o[2]))
+        elif n in ('use', 'free', 'get'):
+            r = {'use': 'RUse', 'free': 'RFree', 'get': 'RGet'}[n]
+            ts.append(('HCtxOp %d (CReg (%s %d))' if ctx else 'HSolReg %d (%s %d)') % (k, r, o[2]))
+        elif n == 'next':
+            ts.append('HCtxOp %d (CReg RNext)' % k)
+        elif n == 'last':
+            t = '(TInsertLast %s)' % _act(o[3], o[4])
+            ts.append(('HCtxOp %d (CTour %d %s)' if ctx else 'HSolTour %d %d %s') % (k, o[2], t))
+        elif n == 'rm':
+            t = '(TRemove %d)' % o[3]
+            ts.append(('HCtxOp %d (CTour %d %s)' if ctx else 'HSolTour %d %d %s') % (k, o[2], t))
+        elif n == 'keep':
+            ts.append('HCtxOp %d (CKeep %s)' % (k, _nl(o[2])))
+        elif n == 'restore':
+            ts.append('HCtxOp %d CRestore' % k)
+        elif n == 'add':
+            ts.append('HSolAdd %d %d' % (k, o[2]))
+        elif n == 'fromsol':
+            ts.append('HFromSol %d' % k)
+        elif n == 'into':
+            ts.append('HInto %d' % k)
+        elif n == 'copy':
+            ts.append('HCopy %d' % k)
+    if c['init'] is None:
+        init = 'None'
+    else:
+        init = '(Some [%s])' % '; '.join('mkLock %d %s [%s]' % (a, 'true' if lazy else 'false', '; '.join(_act(j, 100 + j) for j in js))
+                                         for a, lazy, js in c['init'])
+    return 'run_ho %s %s %s [%s]' % (_nl(c['groups']), 'true' if c['closed'] else 'false', init, '; '.join(ts))
+
+
 def model_term(c):
+    if c['kind'] == 'ho':
+        return _ho_term(c)
     if c['kind'] == 'tour':
         ts = []
         for o in c['ops']:
@@ -341,9 +614,65 @@ def _check_next(groups_of, avail_groups, extra):
     return None
 
 
+def _ho_dump_diff(c, d, m):
+    kind, (grs, alls, _idx), routes, gettable = m
+    if d['kind'] != kind:
+        return 'slot kind: impl %s model %s' % (d['kind'], kind)
+    avail = sorted(a for g in grs for a in g[1:])
+    if d['avail'] != avail:
+        return 'available(): impl %s model %s' % (d['avail'], avail)
+    if d['all'] != alls:
+        return 'all(): impl %s model %s' % (d['all'], alls)
+    flat = [r[:2] + [x for a in r[2:] for x in a] for r in d['routes']]
+    if flat != routes:
+        return 'routes (actor, has_jobs, activities): impl %s model %s' % (flat, routes)
+    if kind == 0:
+        if d['gettable'] != gettable:
+            return 'actors for which get_route returns a route: impl %s model %s' % (d['gettable'], gettable)
+        return _check_next(c['groups'], grs, d)
+    return None
+
+
+def _compare_ho(c, impl, model):
+    k0, r0, rt0, g0, (steps, panicked, finals) = model
+    panicked = (panicked == 'true')
+    if impl['init'] is None:
+        return None if k0 == 2 else 'the factory panicked (%s), the model builds a context' % impl['stop']
+    if k0 == 2:
+        return 'the model factory panics, the implementation built a context'
+    d = _ho_dump_diff(c, impl['init'], (k0, r0, rt0, g0))
+    if d:
+        return 'initial slot: %s' % d
+    if (impl['stop'] is not None) != panicked:
+        return 'panic: impl %r model %s (after %d steps)' % (impl['stop'], panicked, len(impl['steps']))
+    if len(impl['steps']) != len(steps):
+        return 'number of completed steps: impl %d model %d' % (len(impl['steps']), len(steps))
+    for i, (si, sm) in enumerate(zip(impl['steps'], steps)):
+        ret, dm = sm
+        if si['ret'] != ret:
+            return 'step %d %s: result impl %s model %s' % (i, c['ops'][i], si['ret'], ret)
+        d = _ho_dump_diff(c, si['dump'], dm)
+        if d:
+            return 'step %d %s: %s' % (i, c['ops'][i], d)
+        if c['ops'][i][0] == 'next':
+            d = _check_next(c['groups'], dm[1][0], si['extra'])
+            if d:
+                return 'step %d %s: %s' % (i, c['ops'][i], d)
+    if not panicked:
+        if len(impl['final']) != len(finals):
+            return 'number of slots: impl %d model %d' % (len(impl['final']), len(finals))
+        for k, (fi, fm) in enumerate(zip(impl['final'], finals)):
+            d = _ho_dump_diff(c, fi, fm)
+            if d:
+                return 'final state of slot %d: %s' % (k, d)
+    return None
+
+
 def compare(c, impl, model):
     if 'panic' in impl:
         return 'harness panicked outside a step: %s' % impl['panic']
+    if c['kind'] == 'ho':
+        return _compare_ho(c, impl, model)
     steps, panicked, finals = model
     panicked = (panicked == 'true')
     if (impl['stop'] is not None) != panicked:
@@ -537,9 +866,183 @@ def _oracle_reg(c, impl):
     return v
 
 
+_HO_WHERE = {'fromsol': 'after-handover', 'keep': 'after-keep-routes', 'restore': 'after-keep-routes', 'getpush': 'after-get-route',
+             'get': 'after-get-route', 'use': 'after-get-route', 'free': 'after-release', 'into': 'after-into-solution',
+             'copy': 'after-copy', 'last': 'after-tour-operation', 'rm': 'after-tour-operation', 'next': 'after-next-route',
+             'add': 'after-route-added'}
+
+
+def _ho_strip(d):
+    return {k: v for k, v in d.items() if k not in ('next', 'draws')}
+
+
+def _ho_check(c, d, st, where, what):
+    """the registry clause on one dump of a context / solution slot: returns violations"""
+    n = len(c['groups'])
+    v = []
+    avail = d['avail']
+    if len(set(avail)) != len(avail):
+        v.append({'class': 'offered-twice', 'what': '%s: available() lists an actor twice: %s' % (what, avail)})
+    if d['all'] != list(range(n)):
+        v.append({'class': 'all-mismatch', 'what': '%s: all() = %s, fleet actors are 0..%d' % (what, d['all'], n - 1)})
+    if d['kind'] == 0:
+        if d['gettable'] != avail:
+            v.append({'class': 'get-route-disagrees-with-available-' + where,
+                      'what': '%s: get_route hands out %s, available() = %s' % (what, d['gettable'], avail)})
+        if d['stale']:
+            v.append({'class': 'get-route-not-fresh', 'what': '%s: get_route returned a non-empty / foreign route for %s' % (what, d['stale'])})
+        if any(a not in avail for a in d['next']):
+            v.append({'class': 'next-offers-unavailable', 'what': '%s: next_route() = %s, available = %s' % (what, d['next'], avail)})
+        elif sorted(c['groups'][a] for a in d['next']) != sorted(set(c['groups'][a] for a in avail if a < n)):
+            v.append({'class': 'next-misses-group', 'what': '%s: next_route() = %s, available = %s' % (what, d['next'], avail)})
+    if st['judged']:
+        ras = [r[0] for r in d['routes']]
+        if len(set(ras)) != len(ras):
+            v.append({'class': 'vehicle-in-two-routes-' + where, 'what': '%s: route actors %s' % (what, ras)})
+        want = [a for a in d['all'] if a not in ras and a not in st['held']]
+        missing = [a for a in want if a not in avail]
+        extra = [a for a in avail if a not in want]
+        if missing:
+            v.append({'class': 'registry-does-not-offer-unused-vehicle-' + where,
+                      'what': '%s: actors %s are held by no route (routes: %s, acquired without route: %s) but available() = %s'
+                              % (what, missing, ras, sorted(st['held']), avail)})
+        if extra:
+            v.append({'class': 'registry-offers-vehicle-in-use-' + where,
+                      'what': '%s: actors %s are offered (available() = %s) while in use (routes: %s, acquired without route: %s)'
+                              % (what, extra, avail, ras, sorted(st['held']))})
+    return v
+
+
+def _oracle_ho(c, impl):
+    n = len(c['groups'])
+    if impl['init'] is None:
+        return [{'class': 'context-factory-panic', 'what': 'InsertionContext::new panicked: %s' % impl['stop']}]
+    d0 = impl['init']
+    # a context from InsertionContext::new / new_empty is judged from the start; a bare solution only after a hand-over
+    slots = [{'judged': d0['kind'] == 0, 'held': set(), 'last': d0}]
+    v = _ho_check(c, d0, slots[0], 'at-start', 'initial slot')
+    if v:
+        return v[:2]
+    for i, s in enumerate(impl['steps']):
+        op = c['ops'][i]
+        name, k = op[0], op[1]
+        d = s['dump']
+        where = _HO_WHERE.get(name, 'after-' + name)
+        what = 'after step %d %s' % (i, op)
+        st = slots[k]
+        prev = st['last']
+        pras = [r[0] for r in prev['routes']]
+        if name in ('getpush', 'use', 'get') and prev['kind'] == 0:
+            a = op[2]
+            if s['ret'] == 1:
+                if st['judged'] and (a in st['held'] or a in pras):
+                    v.append({'class': 'handed-out-twice', 'what': '%s succeeded while actor %d is in use' % (what, a)})
+                if a >= n:
+                    v.append({'class': 'foreign-actor-acquired', 'what': '%s succeeded for an actor outside the registry' % what})
+                e = s.get('extra') or {}
+                if name != 'use' and (e.get('route_actor') != a or e.get('route_jobs') != 0):
+                    v.append({'class': 'get-route-not-fresh', 'what': '%s returned route %s' % (what, e)})
+                if name == 'getpush':
+                    if [r[0] for r in d['routes']] != pras + [a]:
+                        v.append({'class': 'harness-route-not-pushed', 'what': what})
+                else:
+                    st['held'].add(a)
+            elif st['judged'] and a < n and a not in st['held'] and a not in pras:
+                v.append({'class': 'free-actor-refused', 'what': '%s failed although the actor is not in use' % what})
+        elif name == 'free' and prev['kind'] == 0:
+            a = op[2]
+            if s['ret'] == 1:
+                if a in st['held']:
+                    st['held'].discard(a)
+                elif a in pras:
+                    st['judged'] = False           # the caller released a vehicle behind the back of its route: not the registry's fault
+                elif st['judged']:
+                    v.append({'class': 'free-of-unused', 'what': '%s reported success for an actor that was not in use' % what})
+            elif st['judged'] and a in st['held'] and a < n:
+                v.append({'class': 'release-refused', 'what': '%s failed although the actor is in use' % what})
+        elif name in ('use', 'free', 'add'):           # raw edits of a solution: any registry state is a legal input of the hand-over
+            st['judged'] = False
+        elif name == 'keep':
+            want = [r for r in prev['routes'] if r[0] in op[2]]
+            if d['routes'] != want:
+                v.append({'class': 'keep-routes-mismatch', 'what': '%s: routes %s expected %s' % (what, d['routes'], want)})
+        elif name == 'restore':
+            want = [r for r in prev['routes'] if r[1] == 1]
+            if d['routes'] != want:
+                v.append({'class': 'restore-routes-mismatch', 'what': '%s: routes %s expected %s' % (what, d['routes'], want)})
+        elif name == 'fromsol':
+            # the hand-over clause, from the solution's own last dump (ANY registry state, pairwise distinct route actors)
+            kept = [r for r in prev['routes'] if r[1] == 1]
+            if d['routes'] != kept:
+                v.append({'class': 'handover-routes-mismatch',
+                          'what': '%s: the context holds %s, the routes with jobs of the solution are %s' % (what, d['routes'], kept)})
+            kas = [r[0] for r in kept]
+            distinct = len(set(pras)) == len(pras)
+            if distinct:
+                bad_used = [a for a in kas if a in d['avail']]
+                bad_free = [a for a in pras if a not in kas and a in prev['all'] and a not in d['avail']]
+                bad_other = [a for a in prev['all'] if a not in pras and (a in d['avail']) != (a in prev['avail'])]
+                if bad_used:
+                    v.append({'class': 'registry-offers-vehicle-in-use-after-handover',
+                              'what': '%s: actors %s have a route with jobs in the context but are offered: %s' % (what, bad_used, d['avail'])})
+                if bad_free:
+                    v.append({'class': 'registry-does-not-offer-unused-vehicle-after-handover',
+                              'what': '%s: the job-less routes of actors %s were dropped, no route of the context holds them, but available() = %s '
+                                      '(solution registry offered %s)' % (what, bad_free, d['avail'], prev['avail'])})
+                if bad_other:
+                    v.append({'class': 'handover-changed-vehicle-without-route',
+                              'what': '%s: actors %s have no route in the solution, offered before: %s, after: %s' % (what, bad_other, prev['avail'], d['avail'])})
+            pre = distinct and all(a in prev['all'] for a in pras) and all(a in prev['avail'] for a in prev['all'] if a not in pras)
+            slots.append({'judged': pre, 'held': set(), 'last': d})
+            v.extend(_ho_check(c, d, slots[-1], where, what))
+            if v:
+                return v[:2]
+            continue
+        elif name == 'into':
+            if d['routes'] != prev['routes'] or d['avail'] != prev['avail'] or d['all'] != prev['all']:
+                v.append({'class': 'into-solution-differs', 'what': '%s: solution %s, context %s' % (what, _ho_strip(d), _ho_strip(prev))})
+            slots.append({'judged': st['judged'], 'held': set(st['held']), 'last': d})
+            v.extend(_ho_check(c, d, slots[-1], where, what))
+            if v:
+                return v[:2]
+            continue
+        elif name == 'copy':
+            if _ho_strip(d) != _ho_strip(prev):
+                v.append({'class': 'copy-differs', 'what': '%s: the copy %s differs from its original %s' % (what, _ho_strip(d), _ho_strip(prev))})
+            slots.append({'judged': st['judged'], 'held': set(st['held']), 'last': d})
+            if v:
+                return v[:2]
+            continue
+        if name in ('last', 'rm', 'next') and (d['avail'] != prev['avail'] or [r[0] for r in d['routes']] != pras):
+            v.append({'class': 'registry-changed-by-tour-operation', 'what': '%s: %s -> %s' % (what, _ho_strip(prev), _ho_strip(d))})
+        st['last'] = d
+        v.extend(_ho_check(c, d, st, where, what))
+        if v:
+            return v[:2]
+    if impl['stop'] is None:
+        for k, f in enumerate(impl['final']):
+            if k < len(slots) and _ho_strip(f) != _ho_strip(slots[k]['last']):
+                v.append({'class': 'copy-aliasing', 'what': 'slot %d changed without being the target of an operation: %s -> %s'
+                                                            % (k, _ho_strip(slots[k]['last']), _ho_strip(f))})
+    else:
+        i = len(impl['steps'])
+        if i < len(c['ops']):
+            op = c['ops'][i]
+            st = slots[op[1]] if op[1] < len(slots) else None
+            if st is not None and op[0] in ('keep', 'restore') and st['judged'] and st['last']['kind'] == 0:
+                v.append({'class': 'keep-routes-panic', 'what': 'step %d %s panicked on a consistent context: %s' % (i, op, impl['stop'])})
+            elif st is not None and op[0] in ('fromsol', 'into', 'copy', 'getpush', 'use', 'free', 'get', 'next', 'add'):
+                kind_ok = (st['last']['kind'] == 1) == (op[0] in ('fromsol', 'add')) or op[0] in ('copy', 'use', 'free')
+                if kind_ok:
+                    v.append({'class': 'handover-panic', 'what': 'step %d %s panicked: %s' % (i, op, impl['stop'])})
+    return v[:2]
+
+
 def oracle(c, impl):
     if 'panic' in impl:
         return [{'class': 'harness-panic', 'what': impl['panic']}]
+    if c['kind'] == 'ho':
+        return _oracle_ho(c, impl)
     return _oracle_tour(c, impl) if c['kind'] == 'tour' else _oracle_reg(c, impl)
 
 
@@ -550,12 +1053,49 @@ def nontrivial_key(c, impl):
     changing = [o for o in c['ops'] if o[0] not in ('next', 'state', 'q')]
     if len(changing) < 3 or len(impl['steps']) < 3:
         return None
+    if c['kind'] == 'ho':
+        done = [o[0] for o in c['ops'][:len(impl['steps'])]]
+        if 'fromsol' not in done and 'into' not in done:
+            return None
+        return ('ho', c['closed'], str(c['fleet']), str(c['init']), str(c['ops']))
     return (c['kind'], c.get('closed'), c.get('ctx'), str(c.get('jobs', c.get('groups'))), str(c['ops']))
 
 
 def classify(c, impl):
     labs = ['kind=' + c['kind'], 'expect=' + c.get('expect', 'ok')]
-    if c['kind'] == 'tour':
+    if c['kind'] == 'ho':
+        labs.append('ho:init=' + ('solution' if c['init'] is None else 'context-with-locks' if c['init'] else 'context-empty'))
+        if 'panic' not in impl and impl.get('init') is not None:
+            last = [impl['init']]
+            seen = set()
+            for o, st in zip(c['ops'], impl['steps']):
+                k, d = o[1], st['dump']
+                if o[0] == 'fromsol' and k < len(last):
+                    src = last[k]
+                    ras = [r[0] for r in src['routes']]
+                    seen.add('ho:handover')
+                    if any(r[1] == 0 and r[0] in src['all'] and r[0] not in src['avail'] for r in src['routes']):
+                        seen.add('ho:handover-of-jobless-route-marked-used')
+                    if any(r[1] == 0 and r[0] in src['avail'] for r in src['routes']):
+                        seen.add('ho:handover-of-jobless-route-not-marked-used')
+                    if any(r[1] == 1 and r[0] in src['avail'] for r in src['routes']):
+                        seen.add('ho:handover-of-route-with-jobs-not-marked-used')
+                    if any(a not in ras and a not in src['avail'] for a in src['all']):
+                        seen.add('ho:handover-with-routeless-vehicle-marked-used')
+                    if len(set(ras)) != len(ras):
+                        seen.add('ho:handover-with-duplicate-route-actor')
+                    if any(a not in src['all'] for a in ras):
+                        seen.add('ho:handover-with-foreign-route-actor')
+                if o[0] == 'into':
+                    seen.add('ho:into-solution')
+                if o[0] in ('keep', 'restore') and k < len(last) and len(d['routes']) < len(last[k]['routes']):
+                    seen.add('ho:routes-removed-by-' + o[0])
+                if o[0] in ('fromsol', 'into', 'copy'):
+                    last.append(d)
+                elif k < len(last):
+                    last[k] = d
+            labs.extend(sorted(seen))
+    elif c['kind'] == 'tour':
         labs.append('tour:' + ('closed' if c['closed'] else 'open'))
         labs.append('tour:multi-jobs' if any(c['jobs']) else 'tour:single-jobs-only')
     else:
@@ -580,7 +1120,7 @@ def shrink_candidates(c):
     out = []
     # drop one operation that creates no slot (later slot numbers stay valid)
     for i in range(len(ops) - 1, -1, -1):
-        if ops[i][0] in ('copy', 'slice'):
+        if ops[i][0] in ('copy', 'slice', 'fromsol', 'into'):
             continue
         d = dict(c)
         d['ops'] = ops[:i] + ops[i + 1:]
@@ -594,17 +1134,24 @@ def shrink_candidates(c):
 
 
 MANIFEST_TEXT = ('Machine-checked proof (Coq, no axioms) over an executable model of Tour (insert_at, insert_last, remove, '
-                 'remove_activity_at, legs, counts, job set), Registry (use_actor, free_actor, available, next, deep_slice) and '
-                 'RegistryContext (get_route, use_route, free_route): well-formedness is an invariant of every finite history '
+                 'remove_activity_at, legs, counts, job set), Registry (use_actor, free_actor, available, next, deep_slice), '
+                 'RegistryContext (get_route, use_route, free_route) and the hand-over between Solution and InsertionContext '
+                 '(create_insertion_context_from_solution / new_from_solution, create_insertion_context with locks, new_empty, '
+                 'keep_routes / remove_empty_routes / restore, From<InsertionContext> for Solution): well-formedness is an invariant of every finite history '
                  '(induction over operation lists), the tour refines "list of job activities between fixed depot ends", the registry '
                  'refines "finite set of free actors" (offered iff not in use, acquisitions and releases of an actor alternate), legs() '
-                 'is characterised for every well-formed tour, and operations on one slot leave deep copies untouched. The model is '
+                 'is characterised for every well-formed tour, operations on one slot leave deep copies untouched, and after a hand-over from ANY '
+                 'registry state the context keeps exactly the routes with jobs, offers no actor of a kept route and offers the actor of every dropped '
+                 'job-less route (offered iff fleet member without route when the solution marks only route actors as used; invariant of all contexts '
+                 'reachable by get_route+push, tour operations, keep_routes, restore and round trips through Solution). The model is '
                  'hand-written and tied to /repo on every run: the same generated histories are executed step by step on the real public '
                  'API and inside Coq (vm_compute) and all observable state is diffed after each step; the property clauses are also '
-                 'evaluated directly on the implementation dumps (including aliasing between copies).')
+                 'evaluated directly on the implementation dumps (including aliasing between copies, and "offered iff no route of the context holds it" after every hand-over).')
 MANIFEST_NOTE = ('Trusted: Coq kernel + vm_compute; the harness, generators and comparison; pointer identity of jobs/actors modelled as '
                  'numbers; hash iteration order abstracted (sorted sets). Finding: Tour::insert_at does not check that the index lies between '
                  'the depot ends (index 0, or index = total on a closed tour, displaces a depot); the invariant theorem carries the index '
                  'guard as a hypothesis and a refutation witness is proved for the unguarded statement. Deep-copy independence of Rust '
-                 'memory is validated by the harness, not proved.')
+                 'memory is validated by the harness, not proved. Hand-over: only registry and routes of Solution / SolutionContext are modelled '
+                 '(required/ignored/unassigned/locked jobs and the solution state are not); accept_solution_state is assumed not to touch routes or registry; '
+                 'lock conditions select a single actor (the actor `available().find(cond)` picks among several candidates depends on hash order and is not modelled).')
 MANIFEST_TECHNIQUE = 'Coq proof (history invariants + refinement) over executable model + vm_compute differential correspondence with the Rust implementation'
